@@ -36,6 +36,14 @@
   `session.close()` called by the application (single-threaded paths: C04, C08, C09, C13); the
   loop thread's tests of `closed` / `_sock` never branch (it is their only writer and stops after
   writing them).
+
+  Two loop calls reach outside the established connection: `.connect` (the run starts in `initPre`, BEFORE
+  the event loop is first advanced: no socket; the loop thread stores the socket, writes the HTTP request
+  through `session.write` and reads the reply, or — the request refused because a racing `close()` has set
+  `closing`, or failed — closes the socket and ends) and `.abandon` (the consumer closes the event generator:
+  `on_disconnect` + `_close_socket()` on the loop thread while other threads are inside their sends).  The
+  request is written by the same `session.write` as a frame; on the wire it stands as a placeholder frame
+  (opcode 0, empty payload): its position is modelled, its bytes are not.
 -/
 import Lomond.Model.Basic
 import Lomond.Model.Frame
@@ -89,6 +97,18 @@ inductive Call
   | onData (d : Bytes)
   /-- the same for a message in two fragments -/
   | onData2 (d1 d2 : Bytes)
+  /-- event loop, BEFORE the connection exists (first call of the loop thread, state `initPre`): `run()` from the
+      top — `self._sock = sock`, `_send_request()` = `session.write(request)`, then either the read of the
+      server's reply (`Connected`, `Ready`, `Poll`) or, when the request write was refused / failed,
+      `_close_socket()` and `ConnectFail` (the loop ends).  The request goes through the same `sendall` under the
+      same lock as a frame: on the model's wire it occupies the place of a frame with opcode 0 and an empty
+      payload (a placeholder: where the request stands on the wire is modelled, its bytes are not). -/
+  | connect
+  /-- event loop, connection established: the consumer walks away — the loop thread closes the event generator
+      (`gen.close()`): GeneratorExit at the `yield` inside `for event in self.websocket.feed(data)`; the `feed`
+      generator is finalised first (`on_disconnect(state)`: `session.close()`, `closed = True`, `closing = False`),
+      then `run()`'s `finally: self._close_socket()` -/
+  | abandon
   deriving Repr, DecidableEq, Inhabited
 
 /-- the WebSocketError raised inside `session.write`; `transport` = `TransportFail` raised by
@@ -132,6 +152,8 @@ structure Chunk where
 inductive Alt
   /-- `_on_close` while closing: the server answered our Close -/
   | replyClose
+  /-- `run()`: `_send_request()` raised a WebSocketError: `_close_socket()`, `ConnectFail`, return -/
+  | connectFail
   deriving Repr, DecidableEq, Inhabited
 
 inductive Step
@@ -172,6 +194,12 @@ inductive Step
   | dpeek
   /-- `reset_decompressor()` under `server_no_context_takeover` -/
   | dreset
+  /-- `self._sock = sock` in `run()`: the socket exists from here on -/
+  | setSock
+  /-- `run()` after `_send_request()`: the loop thread's next read of one of its own variables — `if self._sock is
+      None` in `_close_socket()` when the request write raised (take the alternative continuation, the loop ends),
+      `while not websocket.is_closed` otherwise.  Branches on the thread-local outcome of the write only. -/
+  | brIfErr (alt : Alt)
   deriving Repr, DecidableEq, Inhabited
 
 /-- the state checks of `session.write` (`_check_writable`) -/
@@ -210,6 +238,10 @@ def altSteps (v : Variant) : Alt → List Step
     -- `while not websocket.is_closed`, `_close_socket()`, `finally: _close_socket()`
     if v.closeAtomic then [.setClosed, .setClosing false, .rdClosed, .rdClosed] ++ closeSocketProg
     else [.setClosing false, .setClosed, .rdClosed, .rdClosed] ++ closeSocketProg
+  | .connectFail =>
+    -- `_close_socket()` (its `if self._sock is None` is the branching step itself): lock, shutdown + close, unlock,
+    -- `finally: self._sock = None`; `yield ConnectFail; return`
+    [.acquire, .sockClose, .release, .setSockNone]
 
 def compile (v : Variant) (cfg : Cfg) : Call → List Step
   | .sendText p c => sendData v cfg 1 p c
@@ -232,6 +264,17 @@ def compile (v : Variant) (cfg : Cfg) : Call → List Step
   | .onData2 d1 d2 =>
     [.rdSock, .rdClosed, .inflate d1, .dpeek, .inflate d2, .dpeek, .inflate [], .dpeek] ++
       (if cfg.serverNoTakeover then [.dreset] else []) ++ [.rdClosed, .rdClosed]
+  -- `self._sock = sock`; `session.write(request)`: lock, the state checks, the request (a placeholder frame), unlock;
+  -- then (branch) `while not is_closed`, `_recv`: `if self._sock is None`, `feed`: `if self.is_closed`, (Ready, Poll)
+  -- `if self.is_closed: break`, `while not is_closed`
+  | .connect =>
+    [.setSock] ++ writeProg v ⟨0, .lit []⟩ ++ [.brIfErr .connectFail, .rdSock, .rdClosed, .rdClosed, .rdClosed]
+  -- `feed`'s GeneratorExit handler: `on_disconnect(state)` = `session.close()` (`_close_socket()`: test, lock,
+  -- shutdown + close, unlock, `finally: _sock = None`; `self._sock = None`), the two flag stores; then `run()`'s
+  -- `finally: _close_socket()` (its test finds no socket)
+  | .abandon =>
+    [.rdSock, .acquire, .sockClose, .release, .setSockNone, .setSockNone] ++
+      (if v.closeAtomic then [.setClosed, .setClosing false] else [.setClosing false, .setClosed]) ++ [.rdSock]
 
 /-- the application message a call sends (what the peer must end up with) -/
 def Call.msg : Call → Bytes
@@ -245,6 +288,8 @@ def Call.msg : Call → Bytes
   | .autoPing => []
   | .onData _ => []
   | .onData2 _ _ => []
+  | .connect => []
+  | .abandon => []
 
 def Call.op : Call → Nat
   | .sendText _ _ => 1
@@ -257,6 +302,8 @@ def Call.op : Call → Nat
   | .autoPing => 9
   | .onData _ => 0
   | .onData2 _ _ => 0
+  | .connect => 0
+  | .abandon => 0
 
 structure Shared where
   closing : Bool := false
@@ -370,6 +417,9 @@ def exec (v : Variant) (t : Tid) (st : Step) (r : List Step) (sh : Shared) (c : 
   | .inflate d => ({ sh with dctx := sh.dctx ++ d }, { c with rest := r })
   | .dpeek => (sh, { c with rest := r })
   | .dreset => ({ sh with dctx := [] }, { c with rest := r })
+  | .setSock => ({ sh with sockOpen := true }, { c with rest := r })
+  | .brIfErr a =>
+    if c.err.isSome then (sh, { c with rest := altSteps v a, halt := true }) else (sh, { c with rest := r })
 
 def setTh (s : State) (t : Tid) (th : Thread) (sh : Shared) : State :=
   { sh := sh, th := fun u => if u = t then th else s.th u }
@@ -416,6 +466,11 @@ def run (v : Variant) (cfg : Cfg) (s : State) (sched : List Tid) : State :=
 
 def init (progs : Tid → List Call) : State :=
   { sh := {}, th := fun t => { prog := progs t } }
+
+/-- the state BEFORE the event loop is first advanced: no socket yet (`session._sock is None`); the loop thread's
+    program starts with `.connect` -/
+def initPre (progs : Tid → List Call) : State :=
+  { sh := { sockOpen := false }, th := fun t => { prog := progs t } }
 
 /-- programs given as a list: thread `i` runs `ps[i]` -/
 def progsOf (ps : List (List Call)) : Tid → List Call := fun t => ps.getD t []
@@ -505,6 +560,7 @@ def silentNext (v : Variant) (cfg : Cfg) (s : State) (t : Tid) : Bool :=
     match c.rest with
     | .rdSock :: _ => true
     | .rdClosed :: _ => true
+    | .brIfErr _ :: _ => true
     | _ => false
   | none => false
 
